@@ -210,14 +210,18 @@ func (t *TxWatcher) AddWaitForConfirmationTx(swapId string, txId string, _ uint3
 
 				// We add a +1 as the confirmation block height is the height of
 				// first confirmation.
-				confs := currentHeight - conf.blockHeight + 1
+				// The height is counted in signed arithmetic: GetInfo may lag a
+				// block behind the notifier.
+				confs := int64(currentHeight) - int64(conf.blockHeight) + 1
 				if confs >= onchain.BitcoinCsvSafetyLimit {
 					// We are already above half of the csv limit here, it is
-					// unsafe to pay for the invoice now.
-					// TODO: Check if this is handled correctly by the swap state
-					// machine.
+					// unsafe to pay for the invoice now. Tell the swap that
+					// waiting for the confirmation failed: the csv callback is
+					// for makers, a taker's state machine does not know it.
 					log.Infof("[TxWatcher] Wait for confirmation on swap %s: Confirmations already above csv limit for tx %s", swapId, txId)
-					_ = t.csvPassedCallback(swapId)
+					if t.confirmationCallback != nil {
+						_ = t.confirmationCallback(swapId, "", fmt.Errorf("exceeded csv limit"))
+					}
 					return
 				}
 
